@@ -44,7 +44,7 @@ def gen_case(rng, params):
 from chancommon import KIND, CASE_WALL, run_impl, shrink_candidates, classify_common  # noqa: E402
 
 SPECS = ["C02"]
-THEOREMS = ["C02.placeholder"]
+THEOREMS = ["C02.rupLoop_spec", "C02.readUntilPrompt_spec", "C02.rup_spec"]
 QUICK_N, THOROUGH_N = 4000, 60000
 QUICK_BUDGET, THOROUGH_BUDGET = 40, 600
 RULE = ("random (prompt, stream, composition, schedule, chunk size, per-call/configured prompt) tuples; streams are "
@@ -93,4 +93,4 @@ def exhaustive(params):
                 pieces.append(data[last:])
                 script = ",".join(f"0@{hx(p)}" for p in pieces)
                 for chunk in (1, 2, params["readChunkSize"]):
-                    yield f"{chunk} {params['sendSliceSize']} {script} - prompt:{hx(prompt)} rup:-:0"
+                    yield f"{chunk} {params['sendSliceSize']} {script} . prompt:{hx(prompt)} rup:-:0"
